@@ -17,6 +17,7 @@ def run(ctx):
     ctx.rule('R-C03c', 'registration initialises all dispatch state (INIT-COMPLETE for iv_fd_, per poll method)', floor=16)
     ctx.rule('R-C03d', 'kernel tokens that are not descriptors (kick token, timer token) are compared against before a batch entry is used as a descriptor', floor=3)
     ctx.section(dispatch)
+    ctx.section(still_registered)
     ctx.section(ready_bits)
     ctx.section(lambda c: generic.init_complete(c, 'R-C03c', kinds={'iv_fd_'}))
     ctx.section(tokens)
@@ -76,6 +77,27 @@ def dispatch(ctx):
     ok = reaches(pos['handler_err'], pos['handler_in'], h) and reaches(pos['handler_in'], pos['handler_out'], h) \
         and not reaches(pos['handler_in'], pos['handler_err'], h) and not reaches(pos['handler_out'], pos['handler_in'], h)
     ctx.ob('R-C03a', 'dispatch:order', ok, loc=f.loc, detail='within one iteration: error band, then input, then output', fn=f.q)
+
+
+def still_registered(ctx):
+    """A handler may unregister its own descriptor: every later band of the same
+    iteration re-tests the liveness marker (shares the stale-pointer analysis of C01)."""
+    from ..analyses import stale_after_callback
+    prog = ctx.prog
+    f = prog.fn('iv_fd_poll_and_run')
+    g = Inliner(prog, stop=lambda t: t.name in ('iv_fd_timeout_check',)).inline(f)
+    reps, objvars, markers = stale_after_callback(g, lambda e: (callback_kind(e) or ('', ''))[0] == 'callback' and callback_kind(e)[1])
+    fdvars = [v for v, r in objvars.items() if r == 'iv_fd_']
+    if not fdvars:
+        raise AnalysisBroken('dispatcher: descriptor variable not found')
+    for v in fdvars:
+        bad = [(e, acc) for (e, vv, acc, cb) in reps if vv == v]
+        e0 = bad[0][0] if bad else None
+        ctx.ob('R-C03a', 'dispatch:%s-registered-at-each-band' % v, not bad, loc=e0['loc'] if e0 else f.loc,
+               detail=('after an earlier band\'s handler the descriptor is used without re-testing st->handled_fd: %s'
+                       % ', '.join(sorted({a for _, a in bad}))) if bad else
+                      'each later band of the same iteration is behind a test of the liveness marker (%s)' % sorted(markers),
+               path=path_to(g, e0) if e0 else None, fn=f.q)
 
 
 def ready_bits(ctx):
